@@ -36,6 +36,12 @@ def run(ctx):
             case["tempo"] = [[0, 120000]] + [[t, r.choice([60000, 90000, 200000, 1000 * r.randrange(1, 1000)])] for t in chosen]
         cases.append(case)
     _notes._judge(ctx, cases, "C05", "seeded tracks with many phrases", max_skip_ratio=0.01)
+    # sizes: hundreds of phrases (nested, abutting, zero-length) and hundreds of notes
+    cases = []
+    for k in range(ctx.pick(4, 60)):
+        body = nt.random_track(r, r.choice([150, 400]), res=192, phrases=r.choice([100, 300, 800]), events=3, max_tick_gap=20, unit_gap_p=0.4)
+        cases.append({"id": f"C05-big{k}", "res": 192, "body": body})
+    _notes._judge(ctx, cases, "C05", "seeded tracks with hundreds of phrases", max_skip_ratio=0.0)
     # several instrument sections in one chart, each judged as if it were alone
     cases = _notes.seeded_multi(ctx, "C05", ctx.pick(150, 2500), max_tick_gap=30, unit_gap_p=0.4)
     _notes._judge_multi(ctx, cases, "C05", "seeded charts with several sections", max_skip_ratio=0.02)
